@@ -2,6 +2,8 @@
 package c06
 
 import (
+	varint "github.com/multiformats/go-varint"
+	mbase "github.com/multiformats/go-multibase"
 	"sync"
 	"bytes"
 	"crypto/sha256"
@@ -63,7 +65,7 @@ type Case struct {
 
 var byteKinds = []string{"bitflip", "delete", "insert-00", "insert-ff", "insert-copy", "subst-00", "subst-ff", "subst-not"}
 var fieldKinds = []string{"rewrite", "remove", "add-unknown"}
-var sigKinds = []string{"issuer-signs-noncanonical-bytes", "issuer-signs-noncanonical-bytes", "resign-by-prefix-twin", "issuer-signs-other-payload-encoding", "issuer-signs-other-payload-encoding", "issuer-signs-header-insert", "issuer-signs-header-insert", "issuer-signs-header-delete", "issuer-signs-header-subst", "issuer-signs-header-dup-segment", "issuer-signs-foreign-header", "issuer-signs-garbled-header", "issuer-signs-empty-header", "issuer-signs-extended-header", "resign-other-same-alg", "resign-other-alg", "resign-signer-header", "borrow-signature", "header-other-alg", "header-garbled", "header-empty", "sig-truncate", "sig-empty", "sig-extend", "sig-zero"}
+var sigKinds = []string{"issuer-signs-noncanonical-bytes", "issuer-signs-noncanonical-bytes", "resign-by-prefix-twin", "issuer-under-other-multicodec", "issuer-under-other-multicodec", "issuer-signs-other-payload-encoding", "issuer-signs-other-payload-encoding", "issuer-signs-header-insert", "issuer-signs-header-insert", "issuer-signs-header-delete", "issuer-signs-header-subst", "issuer-signs-header-dup-segment", "issuer-signs-foreign-header", "issuer-signs-garbled-header", "issuer-signs-empty-header", "issuer-signs-extended-header", "resign-other-same-alg", "resign-other-alg", "resign-signer-header", "borrow-signature", "header-other-alg", "header-garbled", "header-empty", "sig-truncate", "sig-empty", "sig-extend", "sig-zero"}
 
 var dlgFields = []string{"iss", "aud", "sub", "cmd", "pol", "nonce", "meta", "nbf", "exp"}
 var invFields = []string{"iss", "aud", "sub", "cmd", "args", "prf", "nonce", "meta", "exp", "iat", "cause"}
@@ -265,6 +267,37 @@ func corrupt(cs Case, sealed []byte) (out []byte, oldSig bool, ok bool) {
 			return nil, false, false
 		}
 		b, err := env.Assemble(sig, sp)
+		return b, false, err == nil
+	case "issuer-under-other-multicodec":
+		// the signer's own key bytes, announced in the iss field under ANOTHER multicodec (a key-agreement or
+		// another signature algorithm's code, supported by the library or not), signed by the signer with its
+		// own header: the key "contained in the issuer DID" is then a key of that other algorithm (or none at
+		// all), and this signature does not verify under it
+		_, raw, derr := mbase.Decode(iss.Key().DID.String()[len("did:key:"):])
+		if derr != nil {
+			return nil, false, false
+		}
+		code, n, verr := varint.FromUvarint(raw)
+		if verr != nil {
+			return nil, false, false
+		}
+		codes := []uint64{0xec, 0xed, 0xe7, 0x1200, 0x1201, 0x1202, 0x1205, 0xeb, 0xea, 0x1300, 0x1203, 0x00, 0x55, 0x71}
+		nc := codes[c.Alt%len(codes)]
+		if nc == code {
+			nc = codes[(c.Alt+1)%len(codes)]
+		}
+		enc, eerr := mbase.Encode(mbase.Base58BTC, append(varint.ToUvarint(nc), raw[n:]...))
+		if eerr != nil {
+			return nil, false, false
+		}
+		np := val.V{K: "map"}
+		for _, kv := range payload.M {
+			if kv.K == "iss" {
+				kv.V = val.Str("did:key:" + enc)
+			}
+			np.M = append(np.M, kv)
+		}
+		b, err := env.Seal(iss.Key().Priv, env.SigPayloadNode(e.Header, e.Tag, np.Node()))
 		return b, false, err == nil
 	case "resign-by-prefix-twin":
 		// the issuer field names RSA key 0, the signature is made by its prefix twin (keys.RSATwinIdx), after an
